@@ -254,6 +254,20 @@ def flow_levelb(ctx, module, consts, invariants, init="Init", nxt="Next", label=
     return flow_model(ctx, module, cfg=cfg, workers=workers, timeout=timeout, xmx=xmx, label=label)
 
 
+def flow_tlaps(ctx, module="MontArith"):
+    """Unbounded companion of ImplMont: lemmas about the word-level case analysis for EVERY radix R and modulus p with
+    p < R < 2p, proved by TLAPS (SMT). Re-proved from scratch on every run (the fingerprint cache is removed)."""
+    d = f"{SPEC}/proofs"
+    shutil.rmtree(f"{d}/.tlacache", ignore_errors=True)
+    t0 = time.time()
+    r = sh(["tlapm", "--threads", "8", f"{module}.tla"], cwd=d, timeout=900, check=False)
+    m = re.search(r"All (\d+) obligations proved", r.stdout)
+    ok = m is not None and r.returncode == 0
+    ctx.models[f"TLAPS:{module}"] = {"ok": ok, "obligations_proved": int(m.group(1)) if m else 0, "wall_s": round(time.time() - t0, 1)}
+    if not ok:
+        raise ToolError(f"TLAPS proof of {module} failed:\n{r.stdout[-2000:]}")
+
+
 def levelb_mont(ctx):
     inv = ["AddOK", "SubOK", "Mul2OK", "NegOK", "Div2OK", "MulOK", "SqrOK"]
     for m in ([131] if ctx.quick() else [131, 181, 251]):
@@ -283,6 +297,7 @@ def levelb_sqrt(ctx):
 def p_C06(ctx):
     flow_trace(ctx, "fp", 200000, 600000, chunk=12000)
     levelb_mont(ctx)
+    flow_tlaps(ctx)
 
 
 def p_C12(ctx):
@@ -388,6 +403,7 @@ def p_C16(ctx):
 
 def p_C07(ctx):
     flow_programs(ctx, "fmachine", 14, 56, 1500, 12000)
+    flow_tlaps(ctx)                 # results of add / sub / neg / mul2 / div2 / conditional subtraction / carry fold stay in [0, p), for every p < R < 2p
     if not ctx.quick():
         levelb_mont(ctx)
 
